@@ -2,9 +2,9 @@
    translated from /repo's joint_histogram.c on every run
    (NV.Generated.JointHist); Model.v adds the loop skeleton. *)
 From Coq Require Import ZArith QArith Qround List Bool Lia Lqa Ring.
-From NV.Lib Require Import C09Base.
+From NV.Lib Require Import C09Base Harness.
 From NV.Generated Require Import JointHist OptimizeBook.
-From NV.C09 Require Import Model ModelPy ModelOpt Proofs1 Proofs2 Proofs3 Proofs4 Proofs5 Proofs6 Proofs7.
+From NV.C09 Require Import Model ModelPy ModelOpt Proofs1 Proofs2 Proofs3 Proofs4 Proofs5 Proofs6 Proofs7 ModelLoss Proofs8.
 Import ListNotations.
 Close Scope Q_scope.
 Open Scope Z_scope.
@@ -374,3 +374,52 @@ Example pv_example :
   map (fun p => (fst p, Qred (snd p))) (neigh J 4 4 4 (mkvox 1 (1 # 2) (1 # 4) 0)) =
     [(21, (3 # 8)%Q); (22, 0%Q); (25, (1 # 8)%Q); (26, 0%Q); (37, (3 # 8)%Q); (38, 0%Q); (41, (1 # 8)%Q); (42, 0%Q)].
 Proof. cbv zeta. split; vm_compute; reflexivity. Qed.
+
+Open Scope Q_scope.
+
+(* ---------------------------------------------------------------- dist2loss / supervised likelihood ratio
+   (similarity_measures.py: dist2loss, SimilarityMeasure.__call__, SupervisedLikelihoodRatio.loss; ModelLoss.v).
+   np.log is an oracle: `logf` is universally quantified. *)
+
+(* (21) For every rectangular model q (any shape, any rational entries): the array handed to log has the shape of q and
+   its entry (i,j) is max(TINY, (q_ij / max(TINY, col_j)) / max(TINY, row_i)), where col_j is the column sum and row_i the
+   row sum of the ORIGINAL q. *)
+Theorem dist2loss_arg_spec : forall tiny nc q, Forall (fun r => length r = nc) q ->
+  length (loss_arg tiny nc q) = length q /\ Forall (fun r => length r = nc) (loss_arg tiny nc q) /\
+  forall i j, (i < length q)%nat -> (j < nc)%nat ->
+    exists c, (c == col_total q j)%Q /\
+      nth j (nth i (loss_arg tiny nc q) []) 0%Q =
+        nonzeroQ tiny ((nth j (nth i q []) 0 / nonzeroQ tiny c) / nonzeroQ tiny (qsum (nth i q [])))%Q.
+Proof. exact dist2loss_arg_spec_l. Qed.
+Print Assumptions dist2loss_arg_spec.
+
+(* (22) The log is only ever evaluated at values >= TINY > 0 (the loss is finite); a cell to which the model gives
+   probability 0 is given EXACTLY TINY (its loss is -log(TINY): impossible intensity pairs are penalised, never skipped);
+   a cell whose marginals and ratio are >= TINY is given the plain ratio q_ij / col_j / row_i. *)
+Theorem dist2loss_floor : forall tiny nc q i j, (0 < tiny)%Q ->
+  Forall (fun r => length r = nc) q -> (i < length q)%nat -> (j < nc)%nat ->
+  let a := nth j (nth i (loss_arg tiny nc q) []) 0%Q in
+  (0 < a)%Q /\ (tiny <= a)%Q /\
+  ((nth j (nth i q []) 0 == 0)%Q -> a = tiny) /\
+  (forall c ri, c = nth j (colsum q nc) 0%Q -> ri = qsum (nth i q []) ->
+     (tiny <= c)%Q -> (tiny <= ri)%Q -> (tiny <= nth j (nth i q []) 0 / c / ri)%Q ->
+     a = (nth j (nth i q []) 0 / c / ri)%Q).
+Proof. exact dist2loss_floor_l. Qed.
+Print Assumptions dist2loss_floor.
+
+(* (23) SimilarityMeasure.__call__ with loss -log(A), for EVERY log function, histogram and A (any shapes): the value is
+   sum_ij H_ij log(A_ij), divided by max(TINY, sum H) unless renormalize; with A = loss_arg q this is the supervised
+   log-likelihood ratio. *)
+Theorem slr_is_mean_log_ratio : forall logf tiny renorm nc H q,
+  (slr_value logf tiny renorm nc H q ==
+   if renorm then dotf logf H (loss_arg tiny nc q)
+   else dotf logf H (loss_arg tiny nc q) / nonzeroQ tiny (total H))%Q.
+Proof. intros. apply measure_call_mean. Qed.
+Print Assumptions slr_is_mean_log_ratio.
+
+(* non-vacuity: a diagonal model; the two impossible pairs sit exactly on the floor *)
+Example dist2loss_example :
+  qmat_eqb (loss_arg (1 # 1024) 2 [[1 # 2; 0]; [0; 1 # 2]]) [[2; 1 # 1024]; [1 # 1024; 2]] = true /\
+  Qeq_bool (slr_value (fun x => x - 2) (1 # 1024) false 2 [[3; 1]; [0; 4]] [[1 # 2; 0]; [0; 1 # 2]])
+           (((1 # 1024) - 2) / 8) = true.
+Proof. split; vm_compute; reflexivity. Qed.
